@@ -648,3 +648,34 @@ def spec_c12(tier, seed):
         stubs=['S1', 'S2', 'S3', 'S5 (validated)', 'S6', 'S7 SimTransport', 'S8 failing application code'],
         technique_extra='; stub translation validation by differential execution',
     )
+
+
+def spec_c17(tier, seed):
+    q = tier == 'quick'
+    pends = [[a, b, w] for a in (False, True) for b in (False, True) for w in (0, 1)]
+    parts = []
+    for cause in range(4):
+        parts.append({'cause': cause, 'rounds': 1})
+        for p in pends:
+            if q and (p[0] != p[1]):
+                continue
+            parts.append({'cause': cause, 'rounds': 2, 'pend': p})
+        if not q:
+            parts += [{'cause': cause, 'rounds': 3, 'pend': p} for p in pends if p[2] == 0]
+    return dict(
+        conds=[Cond('c17_reconnect', 'c_reconnect', parts=parts, timeout=900)],
+        explanation='a real RSocketClient (keep-alive 1 s, lifetime 3 s) with a provider of simulated transports; the connection ends by '
+                    'server EOF / transport error / keep-alive time-out (the server goes silent and the application reconnects from '
+                    'on_keepalive_timeout) / explicit reconnect while healthy, with 0..2 pending requests issued before or right at the '
+                    'reconnect request, after SYMBOLIC idle and settle times (keep-alive ticks and time-out checks fall inside); 1..3 '
+                    'consecutive reconnects. After each: old transport closed, pending requests failed exactly once, next transport '
+                    'connected once, first frame a fresh SETUP (once), next stream id 1, KEEPALIVE flows again, a new request is answered.',
+        bounds=['4 causes x {0,1,2 pending: request-response, stream} x 2 moments; idle/settle times 0..2.5 s each (symbolic integers, us)',
+                '%s consecutive reconnects; %d partitions' % ('1-2' if q else '1-3', len(parts))],
+        outside=['more than 3 consecutive reconnects, keep-alive/lifetime configurations other than 1 s / 3 s, providers that fail'],
+        functions=['rsocket.rsocket_client.RSocketClient.reconnect', 'rsocket.rsocket_client.RSocketClient._reconnect_listener', 'rsocket.rsocket_client.RSocketClient.connect',
+                   'rsocket.rsocket_client.RSocketClient._close', 'rsocket.rsocket_client.RSocketClient._connect_new_transport', 'rsocket.rsocket_client.RSocketClient._keepalive_timeout_task',
+                   'rsocket.rsocket_base.RSocketBase._reset_internals', 'rsocket.rsocket_base.RSocketBase.close', 'rsocket.rsocket_base.RSocketBase._close_transport',
+                   'rsocket.rsocket_base.RSocketBase._on_connection_closed', 'rsocket.stream_control.StreamControl.stop_all_streams'],
+        stubs=['S1', 'S2', 'S3', 'S6', 'S7 SimTransport (auto-acknowledging keep-alives while the server is alive)', 'S8'],
+    )
